@@ -366,6 +366,15 @@ class Result:
         self.values = values
 
 
+def _first_line(out):
+    """the solver's answer: first output line that is not a warning (z3 warns about ignored patterns and answers anyway)"""
+    for l in out.split('\n'):
+        l = l.strip()
+        if l and not l.startswith('WARNING'):
+            return l
+    return ''
+
+
 def _run_one(name, path, timeout):
     t0 = time.time()
     try:
@@ -375,7 +384,7 @@ def _run_one(name, path, timeout):
     except subprocess.TimeoutExpired:
         out = 'timeout'
     dt = time.time() - t0
-    first = out.strip().split('\n', 1)[0].strip() if out.strip() else ''
+    first = _first_line(out)
     if first in ('sat', 'unsat'):
         v = first
     elif first == 'unknown' or 'timeout' in out:
@@ -422,7 +431,7 @@ def solve_text(text, timeout=20, order=('z3', 'cvc5'), workdir=None, keep=None, 
                     continue
                 pending.remove((name, p))
                 out = p.stdout.read() or ''
-                first = out.strip().split('\n', 1)[0].strip() if out.strip() else ''
+                first = _first_line(out)
                 outs.append('%s: %s' % (name, out.strip()[:300]))
                 if first == 'unsat' or (first == 'sat' and '+' not in name):
                     winner = Result(first, name, time.time() - t0, out)
